@@ -18,6 +18,7 @@ func init() {
 	vRegister("VerifHarness_C08_RetentionCutoff", VerifHarness_C08_RetentionCutoff)
 	vRegister("VerifHarness_C08_BatchStraddlesTruncation", VerifHarness_C08_BatchStraddlesTruncation)
 	vRegister("VerifHarness_C08_OldPointInLiveGroup", VerifHarness_C08_OldPointInLiveGroup)
+	vRegister("VerifHarness_C08_TagOrderRouting", VerifHarness_C08_TagOrderRouting)
 }
 
 type vC08Meta struct {
@@ -343,6 +344,33 @@ func VerifHarness_C08_OldPointInLiveGroup() {
 	// known finding C08-F2: the old point is covered by the group created for the young one
 	vAssertKF(oldDropped, "C08.older-than-retention-is-dropped", true, "C08-F2")
 	vReach("C08.oldpoint.end")
+}
+
+// The same series written with its tags in either order is routed to the same shard of a group.
+func VerifHarness_C08_TagOrderRouting() {
+	k1, v1 := vBytes("k1", 1), vBytes("v1", 1)
+	k2, v2 := vBytes("k2", vLen("k2len", 1, 2)), vBytes("v2", 1)
+	for _, s := range [][]byte{k1, v1, k2, v2} {
+		for _, c := range s {
+			// plain tag bytes: nothing that needs escaping, no control of the line structure
+			vAssume(c != '\\' && c != '\n' && c != ',' && c != '=' && c != ' ' && c != '"')
+		}
+	}
+	mk := func(a, av, b, bv []byte) string {
+		l := []byte("m,")
+		l = append(append(append(l, a...), '='), av...)
+		l = append(l, ',')
+		l = append(append(append(l, b...), '='), bv...)
+		return string(append(l, " f=1i 5"...))
+	}
+	p1, e1 := models.ParsePointsString(mk(k1, v1, k2, v2))
+	p2, e2 := models.ParsePointsString(mk(k2, v2, k1, v1))
+	vAssume(e1 == nil && e2 == nil && len(p1) == 1 && len(p2) == 1)
+	sg := meta.ShardGroupInfo{ID: 1, Shards: []meta.ShardInfo{{ID: 1}, {ID: 2}, {ID: 3}}}
+	s1, s2 := sg.ShardFor(p1[0]), sg.ShardFor(p2[0])
+	vAssert(s1.ID == s2.ID, "C08.routing-independent-of-tag-order")
+	vObserve("shard", s1.ID)
+	vReach("C08.tagorder.end")
 }
 
 // Finite retention: a point is dropped only if it is older than the retention period at the time
